@@ -3976,7 +3976,7 @@ def sdp(c, Gl = None, hl = None, Gs = None, hs = None, A = None, b = None,
             ind = ml
             for k in range(len(ms)):
                 blas.copy(ss[k], s, offsety = ind)
-                ind += ms[k]
+                ind += ms[k]**2
             pslack = -misc.max_step(s, dims)
             sslack = None
 
@@ -4014,7 +4014,7 @@ def sdp(c, Gl = None, hl = None, Gs = None, hs = None, A = None, b = None,
             ind = ml
             for k in range(len(ms)):
                 blas.copy(zs[k], z, offsety = ind)
-                ind += ms[k]
+                ind += ms[k]**2
             dslack = -misc.max_step(z, dims)
             pslack = None
 
@@ -4080,7 +4080,7 @@ def sdp(c, Gl = None, hl = None, Gs = None, hs = None, A = None, b = None,
             for k in range(len(ms)):
                 blas.copy(ss[k], s, offsety = ind)
                 blas.copy(zs[k], z, offsety = ind)
-                ind += ms[k]
+                ind += ms[k]**2
             pslack = -misc.max_step(s, dims)
             dslack = -misc.max_step(z, dims)
 
